@@ -43,7 +43,7 @@ def _run(a, inst, shared):
     r1, r2, r3 = sch.create_observer(), sch.create_observer(), sch.create_observer()
     h1 = [None]
     sch.schedule_absolute(200 + a.s1, lambda s, st: h1.__setitem__(0, o1.subscribe(r1, scheduler=s)))
-    if a.d1 < 3:
+    if inst.get("early") and a.d1 < 3:
         # the first application's first subscriber leaves early: must not disturb the second application
         sch.schedule_absolute(201 + a.s1 + a.d1, lambda s, st: h1[0].dispose())
     sch.schedule_absolute(200 + a.s2, lambda s, st: o2.subscribe(r2, scheduler=s))
@@ -60,10 +60,11 @@ def _inst(tier):
     skip = {"timestamp", "time_interval", "average"}
     if tier == "quick":  # periodic timers x two applications x two variants: thorough tier only
         skip |= {"buffer_with_time", "window_with_time", "buffer_with_time_or_count", "window_with_time_or_count"}
-    return [{"op": i["op"]} for i in out if i["op"] not in skip]
+    # connectable / multicast operators additionally with a first subscriber that leaves early
+    return [{"op": i["op"], "early": 1 if "multi" in E[i["op"]]["tags"] else 0} for i in out if i["op"] not in skip]
 
 
-@harness(instances=_inst, timeout=(180, 900), term=I(1, 2), p=I(0, 2), m=I(1, 2), s1=I(0, 2), s2=I(0, 2), s3=I(0, 3), d1=I(0, 3))
+@harness(instances=_inst, timeout=(150, 900), term=I(1, 2), p=I(0, 2), m=I(1, 2), s1=I(0, 2), s2=I(0, 2), s3=I(0, 3), d1=I(0, lambda i: 3 if i.get("early") else 0))
 def h_reuse(a, inst):
     la, sa = _run(a, inst, True)
     lb, sb = _run(a, inst, False)
